@@ -4,6 +4,7 @@ import (
 	"go/ast"
 	"go/token"
 	"go/types"
+	"strings"
 
 	"verif/sa/core"
 )
@@ -181,5 +182,68 @@ func runO3(c *core.Ctx) {
 		c.Check(conc, "ast.(Searcher).getByPath/ConcurrentRead", fd.Pos(), "ConcurrentRead handed to newRawNode", "SearchOptions.ConcurrentRead is not handed to newRawNode: returned nodes are not lockable")
 	} else {
 		c.Undecided("ast.(Searcher).getByPath", token.NoPos, "not found")
+	}
+}
+
+func init() {
+	register(&core.Rule{ID: "O5", Min: 3,
+		Doc: "Instruction pool of the assembler: jit.(*Backend).Release (which returns every *obj.Prog to the process-wide pool) is called only from (*BaseAssembler).release; in build() release() is the last step, after assemble() and resolve() (which still read the progs through the xrefs/labels maps); release() drops the maps that reference the progs. Recycling earlier lets a concurrent compilation zero and reuse instructions that are still to be patched.",
+		Run: runO5})
+}
+
+func runO5(c *core.Ctx) {
+	p := c.Prog
+	jit := p.Pkg("internal/jit")
+	if jit == nil || core.FuncDecl(jit, "Backend", "Release") == nil {
+		if p.GOARCH != "amd64" {
+			return
+		}
+		c.Undecided("jit.(Backend).Release", token.NoPos, "not found")
+		return
+	}
+	rel := p.ObjectOf(core.FuncDecl(jit, "Backend", "Release").Name)
+	callers, _, _ := callersOf(p, rel)
+	var names []string
+	for n := range callers {
+		names = append(names, n)
+	}
+	c.Check(len(callers) == 1 && callers["internal/jit.(BaseAssembler).release"], "jit.(Backend).Release/callers", rel.Pos(), "called only from (*BaseAssembler).release", "Backend.Release (recycles every instruction of this assembly into the shared pool) is called from "+strings.Join(names, ", ")+": the progs are still referenced afterwards")
+	if fd := core.FuncDecl(jit, "BaseAssembler", "build"); fd != nil {
+		c.Analysed("internal/jit.(BaseAssembler).build")
+		var order []string
+		ast.Inspect(fd.Body, func(n ast.Node) bool {
+			if es, ok := n.(*ast.ExprStmt); ok {
+				if call, ok := es.X.(*ast.CallExpr); ok {
+					if se, ok := call.Fun.(*ast.SelectorExpr); ok {
+						order = append(order, se.Sel.Name)
+					}
+				}
+			}
+			return true
+		})
+		idx := func(n string) int {
+			for i, x := range order {
+				if x == n {
+					return i
+				}
+			}
+			return -1
+		}
+		good := idx("release") == len(order)-1 && idx("assemble") >= 0 && idx("resolve") > idx("assemble") && idx("release") > idx("resolve")
+		c.Check(good, "jit.(BaseAssembler).build/release-last", fd.Pos(), "assemble, resolve, then release as the last step", "build() does not run release() last, after assemble() and resolve(): order is "+strings.Join(order, ","))
+	} else {
+		c.Undecided("jit.(BaseAssembler).build", token.NoPos, "not found")
+	}
+	if fd := core.FuncDecl(jit, "BaseAssembler", "release"); fd != nil {
+		cleared := map[string]bool{}
+		ast.Inspect(fd.Body, func(n ast.Node) bool {
+			if as, ok := n.(*ast.AssignStmt); ok && len(as.Lhs) == 1 && exprStr(as.Rhs[0]) == "nil" {
+				if se, ok := as.Lhs[0].(*ast.SelectorExpr); ok {
+					cleared[se.Sel.Name] = true
+				}
+			}
+			return true
+		})
+		c.Check(cleared["xrefs"] && cleared["labels"] && cleared["pb"], "jit.(BaseAssembler).release/drops-references", fd.Pos(), "pb, xrefs and labels dropped with the progs", "release() keeps references (pb/xrefs/labels) to instructions that were returned to the pool")
 	}
 }
